@@ -62,13 +62,17 @@ Proof. apply count_bounds. Qed.
 Lemma bool_eq_iff (a b : bool) : (a = true <-> b = true) -> a = b.
 Proof. destruct a, b; intuition congruence. Qed.
 
+(** the reachable-state invariant besides canonicity: no Ignored height at or above the birthday *)
+Definition no_ignored_from (b : Z) (q : list sr) : Prop :=
+  forall h, b <= h -> rows_at (map row_of q) h <> Some Ignored.
+
 (** one scan step lowers the measure by the number of blocks scanned *)
 Lemma scan_step_measure c q s e sap orc iro q' w n :
   chain q -> s < e -> touches q s e -> scan_complete c q s e sap orc iro = Ok q' ->
   w <= s -> e <= w + Z.of_nat n -> (forall h, s <= h < e -> ~ scanned_at q h) ->
   chain q' /\ unscanned q' w n = unscanned q w n - (e - s).
 Proof.
-  intros C L T E W1 W2 U. destruct (scan_complete_spec c q s e sap orc iro C L T) as (q2 & E2 & C2 & P).
+  intros C L T E W1 W2 U. destruct (scan_complete_spec c q s e sap orc iro C L T) as (q2 & E2 & C2 & P & _).
   rewrite E in E2. injection E2 as <-. split; [exact C2|]. unfold unscanned.
   rewrite (count_split (fun h => negb (scanned_b q h)) (in_range s e) n w).
   rewrite (count_ext (fun h => negb (scanned_b q h) && in_range s e h) (in_range s e)).
@@ -77,7 +81,17 @@ Proof.
       exfalso. apply (U h); [unfold in_range in I; lia|exact Sb]. }
   rewrite count_range by lia.
   rewrite (count_ext (fun h => negb (scanned_b q' h)) (fun h => negb (scanned_b q h) && negb (in_range s e h))); [lia|].
-  intros h _. rewrite <- negb_orb. f_equal. apply bool_eq_iff. rewrite orb_true_iff, !scanned_b_iff, P. unfold in_range. split; intros [?|?]; [right; lia|left; assumption|right; assumption|left; lia].
+  intros h _. rewrite <- negb_orb. f_equal. apply bool_eq_iff. rewrite orb_true_iff, !scanned_b_iff, P. unfold in_range.
+  split; intros [?|?]; [right; lia|left; assumption|right; assumption|left; lia].
+Qed.
+
+Lemma scan_step_inv c q s e sap orc iro q' b :
+  chain q -> s < e -> touches q s e -> scan_complete c q s e sap orc iro = Ok q' ->
+  no_ignored_from b q -> no_ignored_from b q' /\
+  (forall h, rows_at (map row_of q) h <> None -> rows_at (map row_of q') h <> None).
+Proof.
+  intros C L T E NI. destruct (scan_complete_spec c q s e sap orc iro C L T) as (q2 & E2 & C2 & _ & PC & PI).
+  rewrite E in E2. injection E2 as <-. split; [|exact PC]. intros h Hb Hi. apply (NI h Hb). apply PI. exact Hi.
 Qed.
 
 (** a chain-tip update leaves the measure alone when no Scanned height lies above the max
@@ -90,43 +104,23 @@ Lemma tip_step_measure c q t q' w n :
 Proof.
   intros C K E T I. destruct (tip_plan_spec c t K) as (p & Ep & _).
   destruct p as [[[qs qe] entries]|].
-  - destruct (update_chain_tip_spec c q t qs qe entries C K Ep (T _ _ _ Ep)) as (q2 & E2 & C2 & P1 & P2).
+  - destruct (update_chain_tip_spec c q t qs qe entries C K Ep (T _ _ _ Ep)) as (q2 & E2 & C2 & P1 & P2 & _).
     rewrite E in E2. injection E2 as <-. split; [exact C2|]. unfold unscanned. apply count_ext. intros h _. f_equal.
     apply bool_eq_iff. rewrite !scanned_b_iff. split; [apply P1|]. intros Hs. apply P2; [exact Hs|]. intros ms Em. eapply I; eauto.
   - unfold update_chain_tip in E. rewrite Ep in E. cbn [bind] in E. injection E as <-. split; [exact C|reflexivity].
 Qed.
 
-(** the client loop: scan steps (any non-empty range of unscanned heights inside the window that
-    touches the queue) interleaved with chain-tip updates *)
-Inductive run (w : Z) (n : nat) : list sr -> nat -> list sr -> Prop :=
-| run_done q : run w n q O q
-| run_scan q c s e sap orc iro q' k q'' :
-    s < e -> w <= s -> e <= w + Z.of_nat n -> touches q s e ->
-    (forall h, s <= h < e -> ~ scanned_at q h) ->
-    scan_complete c q s e sap orc iro = Ok q' -> run w n q' k q'' -> run w n q (S k) q''
-| run_tip q c t q' k q'' :
-    ctx_ok c t -> update_chain_tip c q t = Ok q' ->
-    (forall qs qe entries, tip_plan c t = Ok (Some (qs, qe, entries)) -> touches q qs qe) ->
-    (forall h ms, scanned_at q h -> max_scanned c = Some ms -> h <= ms) ->
-    run w n q' k q'' -> run w n q k q''.
-
-(** [k] counts the scan steps *)
-Lemma run_measure w n q k q'' : chain q -> run w n q k q'' ->
-  chain q'' /\ Z.of_nat k <= unscanned q w n - unscanned q'' w n.
+Lemma tip_step_inv c q t q' b :
+  chain q -> ctx_ok c t -> update_chain_tip c q t = Ok q' ->
+  (forall qs qe entries, tip_plan c t = Ok (Some (qs, qe, entries)) -> touches q qs qe) ->
+  birthday c <> None -> no_ignored_from b q -> no_ignored_from b q' /\
+  (forall h, rows_at (map row_of q) h <> None -> rows_at (map row_of q') h <> None).
 Proof.
-  intros C R. induction R as [q|q c s e sap orc iro q' k q'' L W1 W2 T U E R IH|q c t q' k q'' K E T I R IH].
-  - split; [exact C|lia].
-  - destruct (scan_step_measure c q s e sap orc iro q' w n C L T E W1 W2 U) as (C' & M).
-    destruct (IH C') as (C'' & M'). split; [exact C''|lia].
-  - destruct (tip_step_measure c q t q' w n C K E T I) as (C' & M).
-    destruct (IH C') as (C'' & M'). split; [exact C''|lia].
-Qed.
-
-Lemma sync_terminates w n q k q'' : chain q -> run w n q k q'' ->
-  Z.of_nat k <= unscanned q w n /\ (k <= n)%nat.
-Proof.
-  intros C R. destruct (run_measure w n q k q'' C R) as (_ & M).
-  pose proof (unscanned_bounds q w n). pose proof (unscanned_bounds q'' w n). lia.
+  intros C K E T NB NI. destruct (tip_plan_spec c t K) as (p & Ep & _).
+  destruct p as [[[qs qe] entries]|].
+  - destruct (update_chain_tip_spec c q t qs qe entries C K Ep (T _ _ _ Ep)) as (q2 & E2 & C2 & _ & _ & PC & _ & PI).
+    rewrite E in E2. injection E2 as <-. split; [|exact PC]. intros h Hb Hi. apply (NI h Hb). apply (PI NB). exact Hi.
+  - unfold update_chain_tip in E. rewrite Ep in E. cbn [bind] in E. injection E as <-. auto.
 Qed.
 
 (** *** suggestions *)
@@ -207,4 +201,106 @@ Proof.
       * intros h. cbn [map rows_at row_of]. rewrite IP. unfold in_range.
         destruct (Z.leb_spec h (Z.min mh (u32_max - 1))); [reflexivity|].
         destruct (Z.leb_spec (rs a) h), (Z.ltb_spec h (re a)); cbn [andb]; try lia; reflexivity.
+Qed.
+
+(** *** the measure across a rewind *)
+Lemma count_add_disjoint f g n : forall w, (forall h, f h && g h = false) ->
+  count (fun h => f h || g h) w n = count f w n + count g w n.
+Proof.
+  induction n as [|k IH]; intros w D; cbn [count]; [reflexivity|]. rewrite (IH (w + 1) D).
+  pose proof (D w). destruct (f w), (g w); cbn [orb andb] in *; try discriminate; lia.
+Qed.
+
+(** heights of the window that a rewind to [mh] re-exposes: Scanned before, above [mh] *)
+Definition reexposed (q : list sr) (mh w : Z) (n : nat) : Z :=
+  count (fun h => scanned_b q h && (Z.min mh (u32_max - 1) <? h)) w n.
+
+Lemma reexposed_bounds q mh w n : 0 <= reexposed q mh w n <= Z.of_nat n.
+Proof. apply count_bounds. Qed.
+
+Lemma reexposed_above q mh w n : mh < u32_max -> reexposed q mh w n <= Z.max 0 (w + Z.of_nat n - 1 - mh).
+Proof.
+  intros M. unfold reexposed. replace (Z.min mh (u32_max - 1)) with mh by lia.
+  revert w. induction n as [|k IH]; intros w; cbn [count]; [lia|]. specialize (IH (w + 1)).
+  pose proof (count_bounds (fun h => scanned_b q h && (mh <? h)) k (w + 1)).
+  destruct (scanned_b q w); cbn [andb]; destruct (Z.ltb_spec mh w); lia.
+Qed.
+
+Lemma trim_step q mh w n b : chain q -> 0 <= mh ->
+  chain (trim_scan_queue_to q mh) /\
+  unscanned (trim_scan_queue_to q mh) w n = unscanned q w n + reexposed q mh w n /\
+  (no_ignored_from b q -> no_ignored_from b (trim_scan_queue_to q mh)).
+Proof.
+  intros C M. destruct (trim_spec q mh C M) as (C' & P). split; [exact C'|]. split.
+  - unfold unscanned, reexposed. rewrite <- count_add_disjoint.
+    + apply count_ext. intros h _. unfold scanned_b at 1. rewrite P. unfold scanned_b.
+      destruct (Z.leb_spec h (Z.min mh (u32_max - 1))); destruct (Z.ltb_spec (Z.min mh (u32_max - 1)) h); try lia;
+        destruct (rows_at (map row_of q) h) as [[]|]; reflexivity.
+    + intros h. destruct (scanned_b q h); reflexivity.
+  - intros NI h Hb. rewrite P. destruct (h <=? _); [apply NI; exact Hb|discriminate].
+Qed.
+
+(** *** the client loop: scan steps on unscanned ranges inside the window, chain-tip updates,
+    and rewinds.  [k] counts the scan steps, [r] sums the heights re-exposed by the rewinds. *)
+Inductive run (w : Z) (n : nat) : list sr -> nat -> Z -> list sr -> Prop :=
+| run_done q : run w n q O 0 q
+| run_scan q c s e sap orc iro q' k r q'' :
+    s < e -> w <= s -> e <= w + Z.of_nat n -> touches q s e ->
+    (forall h, s <= h < e -> ~ scanned_at q h) ->
+    scan_complete c q s e sap orc iro = Ok q' -> run w n q' k r q'' -> run w n q (S k) r q''
+| run_tip q c t q' k r q'' :
+    ctx_ok c t -> birthday c <> None -> update_chain_tip c q t = Ok q' ->
+    (forall qs qe entries, tip_plan c t = Ok (Some (qs, qe, entries)) -> touches q qs qe) ->
+    (forall h ms, scanned_at q h -> max_scanned c = Some ms -> h <= ms) ->
+    run w n q' k r q'' -> run w n q k r q''
+| run_trim q mh k r q'' :
+    0 <= mh -> run w n (trim_scan_queue_to q mh) k r q'' ->
+    run w n q k (r + reexposed q mh w n) q''.
+
+Lemma run_measure w n b q k r q'' : chain q -> run w n q k r q'' ->
+  chain q'' /\ Z.of_nat k <= unscanned q w n - unscanned q'' w n + r /\ 0 <= r /\
+  (no_ignored_from b q -> no_ignored_from b q'').
+Proof.
+  intros C R. induction R as [q|q c s e sap orc iro q' k r q'' L W1 W2 T U E R IH
+                               |q c t q' k r q'' K NB E T I R IH|q mh k r q'' M R IH].
+  - split; [exact C|]. split; [lia|]. split; [lia|auto].
+  - destruct (scan_step_measure c q s e sap orc iro q' w n C L T E W1 W2 U) as (C' & Me).
+    destruct (IH C') as (C'' & M' & R0 & NI'). split; [exact C''|]. split; [lia|]. split; [exact R0|].
+    intros NI. apply NI'. apply (scan_step_inv c q s e sap orc iro q' b C L T E NI).
+  - destruct (tip_step_measure c q t q' w n C K E T I) as (C' & Me).
+    destruct (IH C') as (C'' & M' & R0 & NI'). split; [exact C''|]. split; [lia|]. split; [exact R0|].
+    intros NI. apply NI'. apply (tip_step_inv c q t q' b C K E T NB NI).
+  - destruct (trim_step q mh w n b C M) as (C' & Me & NIt).
+    destruct (IH C') as (C'' & M' & R0 & NI'). pose proof (reexposed_bounds q mh w n).
+    split; [exact C''|]. split; [lia|]. split; [lia|]. intros NI. apply NI'. apply NIt. exact NI.
+Qed.
+
+Lemma sync_terminates w n q k r q'' : chain q -> run w n q k r q'' ->
+  Z.of_nat k <= unscanned q w n + r /\ Z.of_nat k <= Z.of_nat n + r.
+Proof.
+  intros C R. destruct (run_measure w n 0 q k r q'' C R) as (_ & M & _).
+  pose proof (unscanned_bounds q w n). pose proof (unscanned_bounds q'' w n). lia.
+Qed.
+
+(** *** quiescence *)
+Lemma chain_convex v a b h : chain v -> rows_at (map row_of v) a <> None -> rows_at (map row_of v) b <> None ->
+  a <= h <= b -> rows_at (map row_of v) h <> None.
+Proof.
+  intros C A B R. destruct v as [|x v]; [cbn in A; congruence|].
+  destruct (last_opt (x :: v)) as [vl|] eqn:L; [|apply last_opt_none in L; discriminate].
+  apply (chain_covered (x :: v) x vl h C eq_refl L).
+  destruct (Z_lt_le_dec a (rs x)); [exfalso; apply A; apply (chain_outside (x :: v) x vl a C eq_refl L); lia|].
+  destruct (Z_lt_le_dec b (re vl)); [lia|exfalso; apply B; apply (chain_outside (x :: v) x vl b C eq_refl L); lia].
+Qed.
+
+(** nothing suggested, no Ignored height from the birthday on, birthday and tip covered:
+    every height from the birthday to the tip is Scanned *)
+Lemma quiescent_full q b t : chain q -> no_ignored_from b q ->
+  rows_at (map row_of q) b <> None -> rows_at (map row_of q) t <> None ->
+  suggest_scan_ranges q Historic = [] ->
+  forall h, b <= h <= t -> scanned_at q h.
+Proof.
+  intros C NI Cb Ct E h R. pose proof (chain_convex q b t h C Cb Ct R) as Hc.
+  destruct (rows_at (map row_of q) h) as [p|] eqn:Ep; [|congruence].
+  destruct (quiescent q C E h p Ep) as [->| ->]; [exact Ep|]. exfalso. apply (NI h); [lia|exact Ep].
 Qed.
